@@ -169,9 +169,10 @@ static int ncb;
 static void on_fs(uv_fs_t* r) { (void) r; ncb++; }
 static long m0, m1, m2, m3, m4;
 static uint32_t inflight0;
-static char via; static char sqe_txt[512];
+static char via; static char sqe_txt[1024];
 static int cur_slot;   /* slot the current op names (for printing the SQE's fd) */
 
+static const char* shown(const char* str);
 static struct uv__iou* ring_iou(void) { return &uv__get_internal_fields((&ring_loop))->iou; }
 
 static void begin(void) {
@@ -198,14 +199,14 @@ static void dump_sqe(uv_fs_t* req) {
     snprintf(a1, sizeof a1, "I:%u:%zu%s", s->len, sum, (void*) v == (void*) req->bufs ? "" : ":foreign");
     break; }
   case 18: case 21: case 35: case 36: case 37: case 38: case 39:
-    snprintf(a1, sizeof a1, "S:%.250s", (const char*) (uintptr_t) s->addr); break;
+    snprintf(a1, sizeof a1, "S:%s", shown((const char*) (uintptr_t) s->addr)); break;
   default:
     if (s->addr == 0) snprintf(a1, sizeof a1, "0"); else snprintf(a1, sizeof a1, "?"); break;
   }
   /* off / addr2 */
   switch (s->opcode) {
   case 35: case 38: case 39:
-    snprintf(a2, sizeof a2, "S:%.250s", (const char*) (uintptr_t) s->off_or_addr2); k = 1; break;
+    snprintf(a2, sizeof a2, "S:%s", shown((const char*) (uintptr_t) s->off_or_addr2)); k = 1; break;
   case 21:
     snprintf(a2, sizeof a2, "%s", (void*) (uintptr_t) s->off_or_addr2 == req->ptr ? "X" : "?"); k = 1; break;
   default:
@@ -381,6 +382,52 @@ static sem_t gate_sem;
 static void blk(uv_work_t* w) { (void) w; sem_wait(&gate_sem); }
 static void blk_done(uv_work_t* w, int s) { (void) w; (void) s; }
 
+/* ---- long strings: "+"-joined pieces, literal or
+ *   @t<n>        symlink target of n characters ('/' every 200)
+ *   @n<n>        a name of n characters
+ *   @p<n>:<leaf> a path of exactly n characters that resolves to <leaf> ("./" and "/" padding)
+ *   @d<k>x<n>    k nested names of n characters joined by '/'                          ---- */
+static char* expand(const char* a) {
+  size_t cap = 8 * PATH_MAX, n = 0; char* o = malloc(cap + 1); const char* p = a; long i;
+  while (*p && n < cap - PATH_MAX) {
+    if (*p == '+') { p++; continue; }
+    if (*p != '@') { o[n++] = *p++; continue; }
+    {
+      char k = p[1]; char* e; long v = strtol(p + 2, &e, 10); p = e;
+      if (v < 0) v = 0; if ((size_t) v > cap - n - PATH_MAX) v = (long) (cap - n - PATH_MAX);
+      if (k == 't') { for (i = 0; i < v; i++) o[n++] = (i % 200 == 199 && i != v - 1) ? '/' : (char) ('a' + i % 26); }
+      else if (k == 'n') { for (i = 0; i < v; i++) o[n++] = (char) ('a' + i % 26); }
+      else if (k == 'd') {
+        long len = 0, j; if (*p == 'x') len = strtol(p + 1, &e, 10), p = e;
+        for (j = 0; j < v && n + (size_t) len + 2 < cap; j++) { if (j) o[n++] = '/'; for (i = 0; i < len; i++) o[n++] = (char) ('a' + i % 26); }
+      } else if (k == 'p') {
+        char leaf[256]; size_t l = 0; long fill;
+        if (*p == ':') p++;
+        while (*p && *p != '+' && l < sizeof(leaf) - 1) leaf[l++] = *p++;
+        leaf[l] = 0; fill = v - (long) l;
+        if (fill >= 3 && (fill & 1)) { o[n++] = '.'; o[n++] = '/'; o[n++] = '/'; fill -= 3; }
+        for (; fill >= 2; fill -= 2) { o[n++] = '.'; o[n++] = '/'; }
+        memcpy(o + n, leaf, l); n += l;
+      }
+    }
+  }
+  o[n] = 0;
+  return o;
+}
+/* strings are printed in full up to 200 characters, longer ones as <length>:<hash> */
+static const char* shown(const char* str) {
+  static char b[4][256]; static int k; size_t l = strlen(str);
+  if (l <= 200) return str;
+  k = (k + 1) & 3; snprintf(b[k], sizeof b[k], "<%zu:%u>", l, fnv((const unsigned char*) str, l, 2166136261u));
+  return b[k];
+}
+ssize_t __real_readlink(const char*, char*, size_t);
+static volatile long readlink_bufsiz = -1; static volatile int readlink_armed;
+ssize_t __wrap_readlink(const char* p, char* b, size_t n) {
+  if (readlink_armed) readlink_bufsiz = (long) n;
+  return __real_readlink(p, b, n);
+}
+
 /* ---- one operation on the current route ---- */
 static int opno;
 static int slot_of(const char* s) { int k = atoi(s + (s[0] == 's')); return k >= 0 && k < NSLOT ? k : 0; }
@@ -465,16 +512,28 @@ static void run_op(char** a, int na) {
     }
   } else if (!strcmp(op, "readlink") || !strcmp(op, "realpath")) {
     if (uvr) {
+      readlink_bufsiz = -1; readlink_armed = route == R_SYNC && op[4] == 'l';
       BEGIN(); rc = op[4] == 'l' ? uv_fs_readlink(L, &req, ARG(1), CB) : uv_fs_realpath(L, &req, ARG(1), CB);
       res = complete(&req, rc); t("res=%ld", res);
-      if (res == 0) t(" out=%s", req.ptr ? strip_root((const char*) req.ptr) : "(null)"); else if (req.ptr) t(" PTR-SET-ON-ERROR");
+      readlink_armed = 0;
+      if (res == 0) t(" out=%s", req.ptr ? shown(strip_root((const char*) req.ptr)) : "(null)"); else if (req.ptr) t(" PTR-SET-ON-ERROR");
+      if (route == R_SYNC && op[4] == 'l') t(" bs=%ld pc=%ld", (long) readlink_bufsiz, (long) pathconf(ARG(1), _PC_PATH_MAX));
       END(0);
     } else {
-      char b[PATH_MAX];
+      char b[2 * PATH_MAX];
       if (op[4] == 'l') { ssize_t r = readlink(ARG(1), b, sizeof b - 1); res = r < 0 ? -(long) errno : 0; if (r >= 0) b[r] = 0; }
       else res = realpath(ARG(1), b) ? 0 : -(long) errno;
-      t("res=%ld", res); if (res == 0) t(" out=%s", strip_root(b));
+      t("res=%ld", res); if (res == 0) t(" out=%s", shown(strip_root(b)));
     }
+  } else if (!strcmp(op, "mkdirp")) {
+    /* set-up, the same plain calls on every route: <depth> nested directories named <name> */
+    char p[2 * PATH_MAX]; size_t n = 0; int depth = atoi(ARG(2)), d; long made = 0;
+    for (d = 0; d < depth && n + strlen(ARG(1)) + 2 < sizeof p; d++) {
+      if (d) p[n++] = '/';
+      memcpy(p + n, ARG(1), strlen(ARG(1))); n += strlen(ARG(1)); p[n] = 0;
+      if (mkdir(p, 0755) == 0) made++;
+    }
+    t("res=%ld", made);
   } else if (!strcmp(op, "ftruncate") || !strcmp(op, "fsync") || !strcmp(op, "fdatasync") || !strcmp(op, "fchmod")) {
     int k = slot_of(ARG(1)); cur_slot = k;
     if (uvr) {
@@ -755,10 +814,11 @@ static void run_route(int r, char* script, const char* base, long caseno) {
   while (p && nops < MAXOPS) { char* q = strstr(p, " | "); if (q) *q = 0; ops[nops++] = p; p = q ? q + 3 : NULL; }
   for (i = 0; i < nops; i++) {
     char* a[8]; int na = 0; char* save; char* tok; char* o = strdup(ops[i]);
-    for (tok = strtok_r(o, " ", &save); tok && na < 8; tok = strtok_r(NULL, " ", &save)) a[na++] = tok;
+    for (tok = strtok_r(o, " ", &save); tok && na < 8; tok = strtok_r(NULL, " ", &save)) a[na++] = expand(tok);
     tlen = 0; tbuf[0] = 0; opno = i;
     if (na > 0) run_op(a, na);
     free(rtext[r][i]); rtext[r][i] = strdup(tbuf);
+    while (na > 0) free(a[--na]);
     free(o);
   }
   for (i = 0; i < NSLOT; i++) if (slots[i] >= 0) { close(slots[i]); slots[i] = -1; }
